@@ -96,6 +96,24 @@ def run_check(args):
     return out
 
 
+def _harness_target_missing(e):
+    if not isinstance(e, (AttributeError, NameError, ImportError, TypeError)):
+        return False
+    tb = e.__traceback__
+    while tb is not None and tb.tb_next is not None:
+        tb = tb.tb_next
+    if tb is None or not tb.tb_frame.f_code.co_filename.startswith(HERE + os.sep):
+        return False                      # raised inside the code under test (or the standard library): a real failure
+    if isinstance(e, AttributeError):
+        obj = getattr(e, "obj", None)
+        mod = getattr(type(obj), "__module__", "") or ""
+        is_lib_object = mod.startswith("bromelia") or isinstance(obj, type(os)) or (isinstance(obj, type) and obj.__module__.startswith("bromelia"))
+        return bool(is_lib_object)        # e.g. None.dump is NOT this case: that is the library returning the wrong thing
+    if isinstance(e, TypeError):
+        return "argument" in str(e) or "positional" in str(e)      # a private signature changed under the harness
+    return True
+
+
 def run_replay(args, mode="replay"):
     os.environ["VF_MODE"] = mode
     mod = _load(args.module)
@@ -161,6 +179,11 @@ def run_replay(args, mode="replay"):
         out["verdict"] = "fails"
         out["raised"] = f"{type(e).__name__}: {e}"[:500]
         out["traceback"] = traceback.format_exc()[-2000:]
+        if _harness_target_missing(e):
+            # the HARNESS reached for an internal name the current tree no longer has (renamed private attribute, changed
+            # private signature): nothing is known about the property - inconclusive, never a finding
+            out["verdict"] = "target-missing"
+            out["detail"] = out["raised"]
     finally:
         sys.setprofile(None)
     out["wall_s"] = round(time.time() - t0, 3)
